@@ -276,6 +276,96 @@ def run_real(text, nb, kindf, strict=True):
     return before, after, mod
 
 
+# ---------------------------------------------------------------- pin: the real function-constant-pinning
+def _const_i32(v):
+    from xdsl.ir import OpResult
+    if isinstance(v, OpResult) and v.op.name == "arith.constant" and str(v.type) == "i32":
+        return v.op.value.value.data
+    return None
+
+
+def conv_pinned_block(block, kindf, ret_id=None):
+    """abstract statements of a pinned function body with the constant comparisons folded; ids come from the
+    `vid` attribute put on the ops before the passes (the pinning pass clones the function)"""
+    out = []
+    for op in block.ops:
+        n = op.name
+        if n in CONTROL_TERMS:
+            continue
+        if n == "arith.constant" and str(op.results[0].type) == "i32":
+            continue
+        if n == "arith.cmpi" and _const_i32(op.lhs) is not None and _const_i32(op.rhs) is not None:
+            continue
+        if n == "scf.if":
+            from xdsl.ir import OpResult
+            c = op.cond
+            if isinstance(c, OpResult) and c.op.name == "arith.cmpi" and _const_i32(c.op.lhs) is not None and _const_i32(c.op.rhs) is not None:
+                if c.op.predicate.value.data != 0:
+                    raise Unsupported("pinned comparison is not eq")
+                if _const_i32(c.op.lhs) == _const_i32(c.op.rhs):
+                    out += conv_pinned_block(op.true_region.block, kindf, ret_id)
+                elif op.false_region.blocks:
+                    out += conv_pinned_block(op.false_region.block, kindf, ret_id)
+                continue
+            vid = op.attributes["vid"].value.data
+            th = conv_pinned_block(op.true_region.block, kindf, ret_id)
+            el = conv_pinned_block(op.false_region.block, kindf, ret_id) if op.false_region.blocks else []
+            out.append(("If", vid, th, el))
+            continue
+        if n == "func.call" and op.callee.string_value().startswith("f_pinned"):
+            raise Unsupported("a pinned function reaches another specialisation")
+        if n == "scf.for":
+            out.append(("For", op.attributes["vid"].value.data, conv_pinned_block(op.body.block, kindf, ret_id)))
+            continue
+        if n == "func.return" and "vid" not in op.attributes and ret_id is not None:
+            out.append(("Leaf", ret_id, kindf(op), False))  # the pinning pass gives each specialisation a new terminator
+            continue
+        if "vid" not in op.attributes:
+            raise Unsupported(f"op {n} in a pinned function has no original")
+        out.append(("Leaf", op.attributes["vid"].value.data, kindf(op), mc_ir.has_inner_ops(op)))
+    return out
+
+
+def run_pin(text, nb, kindf):
+    """single-block function: dispatch-regions, then xDSL's function-constant-pinning.  Returns
+    (after_blocks, {constant: folded body of the function pinned to it}, dispatcher map core id -> constant)"""
+    from xdsl.dialects.builtin import IntegerAttr, i64
+    from xdsl.transforms.experimental.function_constant_pinning import FunctionConstantPinningPass
+    from snaxc.transforms.dispatch_regions import DispatchRegions
+    mod = mc_ir.parse(text)
+    fop = find_func(mod)
+    ids = {}
+    conv_func(fop, ids, kindf, True)
+    ret_id = None
+    for op in fop.walk():
+        if id(op) in ids and op is not fop:
+            op.attributes["vid"] = IntegerAttr(ids[id(op)], i64)
+            if op.name == "func.return":
+                ret_id = ids[id(op)]
+    DispatchRegions(nb_cores=nb).apply(mc_ir.xctx(), mod)
+    after = conv_func(find_func(mod), ids, kindf, False, nb)
+    FunctionConstantPinningPass().apply(mc_ir.xctx(), mod)
+    mod.verify()
+    pinned = {}
+    names = {}
+    for f in mod.walk():
+        if f.name == "func.func" and f.sym_name.data.startswith("f_pinned"):
+            first = [o for o in f.body.blocks[0].ops if o.name == "arith.constant" and str(o.results[0].type) == "i32"]
+            if not first:
+                raise Unsupported("pinned function without constant")
+            c = first[0].value.value.data
+            pinned[c] = conv_pinned_block(f.body.blocks[0], kindf, ret_id)
+            names[f.sym_name.data] = c
+    # the dispatcher left in @f: if (core_idx == k) call @f_pinned_x
+    disp = {}
+    for op in find_func(mod).walk():
+        if op.name == "scf.if" and _cmp_const(op.cond) is not None:
+            calls = [o for o in op.true_region.block.ops if o.name == "func.call" and o.callee.string_value() in names]
+            if calls:
+                disp[int(_cmp_const(op.cond))] = names[calls[0].callee.string_value()]
+    return after, pinned, disp
+
+
 def count_kinds(blocks, acc=None):
     acc = acc if acc is not None else {}
     for b in blocks:
@@ -326,6 +416,37 @@ def correspondence(ctx):
         meta.append({"text": text, "nb": nb})
         ctx.count({"nb": nb, "blocks": len(before["blocks"]), "kinds": count_kinds(before["blocks"])}, ndisp > 0,
                   f"{before['blocks']}{nb}", f"nb={nb}")
+    # (c) pinning: the real function-constant-pinning of the dispatched (single-block) function vs `pin`
+    pin_cases, pin_meta = [], []
+    for i in range(ctx.n(40, 250)):
+        text, nb, ndisp = gen_case(rng)
+        if "^bb1:" in text or ndisp == 0:
+            continue
+        try:
+            after, pinned, disp = run_pin(text, nb, mc_ir.rule_kind)
+        except Unsupported as e:
+            dis.append({"name": "L1:pin-convert", "detail": str(e), "text": text, "nb": nb})
+            continue
+        except Exception as e:
+            dis.append({"name": "L1:pin-crash", "detail": repr(e)[:300], "text": text, "nb": nb})
+            continue
+        if sorted(pinned) != list(range(nb)) or any(disp.get(k) != k for k in disp) or not set(disp) <= set(range(nb)):
+            dis.append({"name": "L1:pin-constants", "pinned": sorted(pinned), "dispatcher": disp, "text": text, "nb": nb})
+            continue
+        for c in range(nb):
+            pin_cases.append(f"({zlit(c)}, {coq_block(after['blocks'][0])}, {coq_block(pinned[c])})")
+            pin_meta.append({"text": text, "nb": nb, "core": c})
+            ctx.count({"pin": c, "nb": nb}, True, f"pin{text}{nb}{c}", "pin")
+    pshards = [pin_cases[i:i + 3 * SH1] for i in range(0, len(pin_cases), 3 * SH1)]
+    ptexts = [HEADER + f"Definition cs : list (Z * list stmt * list stmt) := {coqlist(sh)}.\n"
+              "Eval vm_compute in failing (fun c => match c with (k, a, b) => list_eqb stmt_eqb (pinl k a) b end) cs.\n" for sh in pshards]
+    for si, (ok, out) in enumerate(vlib.coq_eval_many("c14pin_", ptexts, timeout=600)):
+        lists = vlib.parse_all_eval_lists(out)
+        if not ok or len(lists) != 1:
+            dis.append({"name": "L1:pin-cases-file", "detail": out[-1500:]})
+            continue
+        for idx in lists[0]:
+            dis.append({"name": "L1:pin-structure", **pin_meta[si * 3 * SH1 + idx]})
     shards = [cases[i:i + SH1] for i in range(0, len(cases), SH1)]
     texts = [HEADER + f"Definition cs : list (Z * func * dispatched) := {coqlist(sh)}.\n"
              "Eval vm_compute in failing (fun c => match c with (nb, f, d) => "
